@@ -1,6 +1,7 @@
 package vc
 
 import (
+	"go/ast"
 	"fmt"
 	"go/constant"
 	"io/fs"
@@ -191,8 +192,11 @@ func (p *Prog) StaticObligations(prop string) []*Obligation {
 			for n := range seenF {
 				got = append(got, n)
 			}
-			for _, hit := range p.foreignFieldWrites(d.Pkg, parts[1]) {
-				got = append(got, "foreign:"+hit)
+			// an unexported field cannot be named outside its package (Go visibility): no foreign scan
+			if ast.IsExported(parts[1]) {
+				for _, hit := range p.foreignFieldWrites(d.Pkg, parts[1]) {
+					got = append(got, "foreign:"+hit)
+				}
 			}
 		case "callsonly":
 			f := p.Funcs[d.Pkg+"::"+d.Subject]
